@@ -480,7 +480,10 @@ class PDDLWriter:
                 f" (:types {' '.join(pddl_types)})\n" if len(pddl_types) > 0 else ""
             )
 
-        domain_objects = self.problem.domain_constants
+        # in the problem's own order: domain_constants is a set whose iteration order depends on
+        # object addresses, and the names of colliding constants depend on the order they get them
+        constants = self.problem.domain_constants
+        domain_objects = [o for o in self.problem.all_objects if o in constants]
         if len(domain_objects) > 0:
             out.write(" (:constants")
             for o in domain_objects:
